@@ -16,7 +16,7 @@ FLAGS = ["-std=c++11", "-g", "-O1", "-fno-omit-frame-pointer", "-fsanitize=addre
 def build_lib(extra_defs=()):
     """compile /repo/src/*.cpp with sanitizers into .build/native/<tag>/; returns list of objects"""
     tag = "san" + "".join("_" + d for d in extra_defs)
-    d = os.path.join(core.VERIF, ".build", "native", tag)
+    d = os.path.join(core.BUILD, "native", tag)
     with _lock:
         os.makedirs(d, exist_ok=True)
         def cc(src):
@@ -62,7 +62,7 @@ def build_prog(name, extra_defs=()):
 
 def _build_prog(name, extra_defs=()):
     objs = build_lib(extra_defs)
-    d = os.path.join(core.VERIF, ".build", "native")
+    d = os.path.join(core.BUILD, "native")
     exe = os.path.join(d, name + "".join("_" + x for x in extra_defs))
     src = os.path.join(core.VERIF, "replay", name + ".cpp")
     cmd = ["g++"] + FLAGS + ["-D" + x for x in extra_defs] + ["-I", os.path.join(core.REPO, "include"), src] + objs + \
